@@ -64,7 +64,8 @@ PLAN = {
 
 
 def run_engine(pid, tier, ev, violations, machinery):
-    ENGINE.run(pid, tier, PLAN[pid], ev, violations, machinery)
+    from .timebuf_run import tick_variants
+    ENGINE.run(pid, tier, dict(PLAN[pid], derive=tick_variants), ev, violations, machinery)
 
 
 def check(pid, tier):
